@@ -221,9 +221,10 @@ impl<'a, T> Iterator for ProbeRef<'a, T> {
 }
 
 fn mk<const PAD: usize>(len: usize) -> std::vec::Vec<Elem<PAD>> {
-    // the source collection is part of the accounted memory (it is handed over to the iterator)
+    // the source collection is part of the accounted memory (it is handed over to the iterator);
+    // spare capacity on purpose: the length, not the capacity, bounds the elements
     subj(|| {
-        let mut v = Vec::with_capacity(len);
+        let mut v = Vec::with_capacity(len + 2);
         for i in 0..len {
             v.push(Elem::new(i));
         }
@@ -233,7 +234,7 @@ fn mk<const PAD: usize>(len: usize) -> std::vec::Vec<Elem<PAD>> {
 
 fn mkb(len: usize) -> std::vec::Vec<BElem> {
     subj(|| {
-        let mut v = Vec::with_capacity(len);
+        let mut v = Vec::with_capacity(len + 1);
         for i in 0..len {
             v.push(BElem::new(i));
         }
